@@ -23,6 +23,7 @@ EXTENDS Integers, Sequences, FiniteSets, TLC, VF
 CONSTANTS Tier,        \* "quick" | "few" | "thorough": which (algorithm, feerate, flags, change parameters) combinations
           MinN, MaxN,  \* pool sizes enumerated
           TypeIds,     \* catalogue entries used
+          RunAlgos,    \* subset of {"bnb", "cg"}: also evaluate the model of that search as coded (Run) for each of its calls
           WCross       \* FALSE: weight caps around the weight of the subset that defines the target;
                        \* TRUE: weight caps around the weight of every subset
 
@@ -95,8 +96,10 @@ VARIABLES pool,   \* sequence of catalogue ids: the groups offered to the algori
           tgt,    \* selection target
           maxw,   \* max_selection_weight
           phase,  \* "new" (pool and cmb chosen) | "pool" (+ st computed) | "row" (a complete call)
-          tab     \* the verdict table of the call (see Table)
-vars == <<pool, cmb, st, ga, tgt, maxw, phase, tab>>
+          tab,    \* the verdict table of the call (see Table)
+          sb,     \* bnb / cg: the pool in the search's sort order with lookahead tables (CtxBase), computed once per pool
+          run     \* bnb / cg: the unbounded search as coded, best selection after each attempt (see Run); <<>> otherwise
+vars == <<pool, cmb, st, ga, tgt, maxw, phase, tab, sb, run>>
 
 Idx(p) == 1..Len(p)
 AmtF(p, c) == [i \in Idx(p) |-> GAmt(Catalogue[p[i]], c.r, c.sf)]
@@ -159,6 +162,104 @@ Table(sts, c, t, mw) ==
   { LET x == sts[S] IN << x.m, x.a, x.e, x.v, x.w, RecalcWaste(x, c, t), Objective(x, c, t), Objective(x, c, t) = best,
                           pcs = {} \/ Objective(x, c, t) <= bestpc >> : S \in feas }
 
+\* ------------------------------------------------------------------------------------------------------------------------
+\* The two exhaustive searches AS CODED, with the attempt bound (TOTAL_TRIES) as a parameter.
+\* One iteration of the loop of CoinGrinder / SelectCoinsBnB = one application of CGIter / BnBIter; the loop checks the bound
+\* right after the evaluation of the new selection and before backtracking.  So a run with bound T >= 1 is a prefix of the
+\* unbounded run: with F = the number of iterations of the unbounded run,
+\*     T <= F : the search stops after attempt T with the best selection found so far, SetAlgoCompleted(false)
+\*     T >  F : the search ends by itself after attempt F,                               SetAlgoCompleted(true)
+\* Run(...) returns the sequence of "best so far" records after each attempt of the unbounded run; the harness runs the real
+\* code with every bound 1 .. 2^(n+1)+1 and compares completed flag, attempt count and the selection's amount / weight (rows whose
+\* sort order is determined, Det*), and TLC decides on the model: the selection a completed search returns is optimal (AsCoded*).
+LOCAL INSTANCE SequencesExt
+Huge == 2000000000                       \* stands for MAX_MONEY / INT_MAX (beyond every sum of the domain)
+CeilDiv(x, y) == (x + y - 1) \div y
+\* positions 1..n in the algorithm's sort order: amount descending, then key ascending (waste for BnB, weight for CoinGrinder),
+\* remaining ties by pool index (std::sort leaves them unspecified: see DetCG / DetBnB)
+SortOrder(n, A, K) ==
+  LET Before(j, i) == A[j] > A[i] \/ (A[j] = A[i] /\ K[j] < K[i]) \/ (A[j] = A[i] /\ K[j] = K[i] /\ j < i)
+      rank == TLCEval([i \in 1..n |-> 1 + Cardinality({j \in 1..n : Before(j, i)})])
+  IN [r \in 1..n |-> CHOOSE i \in 1..n : rank[i] = r]
+\* search context: everything in sort order.  a: amounts, w: weights, x: input waste (fee - long-term fee), la: lookahead (sum of the
+\* amounts after a position), mt: minimum weight after a position, tt: amount to reach, up: upper end of the window (BnB)
+CtxBase(p, c) ==
+  LET n == Len(p)  A0 == TLCEval(AmtF(p, c))  W0 == TLCEval(WF(p))  F0 == TLCEval(FeeF(p, c))  L0 == TLCEval(LTF(p))
+      X0 == TLCEval([i \in 1..n |-> F0[i] - L0[i]])
+      ord == TLCEval(SortOrder(n, A0, IF c.al = "bnb" THEN X0 ELSE W0))
+      a == TLCEval([r \in 1..n |-> A0[ord[r]]])  w == TLCEval([r \in 1..n |-> W0[ord[r]]])  x == TLCEval([r \in 1..n |-> X0[ord[r]]])
+  IN [n |-> n, a |-> a, w |-> w, x |-> x,
+      la |-> TLCEval([r \in 1..n |-> FoldLeft(LAMBDA acc, q : IF q > r THEN acc + a[q] ELSE acc, 0, [q \in 1..n |-> q])]),
+      mt |-> TLCEval([r \in 1..n |-> FoldLeft(LAMBDA acc, q : IF q > r /\ w[q] < acc THEN w[q] ELSE acc, Huge, [q \in 1..n |-> q])]),
+      total |-> FoldLeft(LAMBDA acc, q : acc + a[q], 0, [q \in 1..n |-> q]),
+      high |-> n >= 1 /\ x[1] > 0]                                  \* is_feerate_high, read off the first UTXO
+Ctx(b, c, t, mw) == [n |-> b.n, a |-> b.a, w |-> b.w, x |-> b.x, la |-> b.la, mt |-> b.mt, total |-> b.total, high |-> b.high,
+                     tt |-> Need(c, t), up |-> t + CostOfChange(c), t |-> t, mw |-> mw]
+\* the clone-skipping loop after a SHIFT: cg: same amount; bnb (after the fix f3914fc): same amount and not lighter
+RECURSIVE SkipClones(_, _, _)
+SkipClones(cx, bnb, nx) ==
+  IF cx.a[nx - 1] = cx.a[nx] /\ (bnb => cx.w[nx - 1] <= cx.w[nx])
+  THEN IF nx >= cx.n THEN [next |-> nx, shift |-> TRUE] ELSE SkipClones(cx, bnb, nx + 1)
+  ELSE [next |-> nx, shift |-> FALSE]
+\* the `while (should_shift)` loop
+RECURSIVE Backtrack(_, _, _)
+Backtrack(cx, bnb, s) ==
+  IF s.sel = <<>> THEN [s EXCEPT !.done = TRUE]
+  ELSE LET last == s.sel[Len(s.sel)]
+           s2 == [s EXCEPT !.sel = Front(s.sel), !.amt = s.amt - cx.a[last], !.wt = s.wt - cx.w[last], !.ws = s.ws - cx.x[last]]
+           sk == SkipClones(cx, bnb, last + 1)
+       IN IF sk.shift THEN Backtrack(cx, bnb, [s2 EXCEPT !.next = sk.next]) ELSE [s2 EXCEPT !.next = sk.next]
+SearchInit(cx, bw0, bo0) == [sel |-> <<>>, next |-> 1, amt |-> 0, wt |-> 0, ws |-> 0, best |-> <<>>, bw |-> bw0, bo |-> bo0, ba |-> 0,
+                             done |-> FALSE, tr |-> <<>>]
+\* common tail of an iteration: record the best so far (this is where the bound is checked), CUT at the end of the pool, backtrack
+Finish(cx, bnb, s, sel1, amt1, wt1, ws1, cut0, shift0, best1, bw1, bo1, ba1) ==
+  LET tail == s.next
+      cut == cut0 \/ tail = cx.n
+      s1 == [sel |-> IF cut THEN s.sel ELSE sel1, next |-> tail + 1, amt |-> IF cut THEN s.amt ELSE amt1, wt |-> IF cut THEN s.wt ELSE wt1,
+             ws |-> IF cut THEN s.ws ELSE ws1, best |-> best1, bw |-> bw1, bo |-> bo1, ba |-> ba1, done |-> FALSE,
+             tr |-> Append(s.tr, IF best1 = <<>> THEN <<0, 0>> ELSE <<bw1, ba1>>)]
+  IN IF cut \/ shift0 THEN Backtrack(cx, bnb, s1) ELSE s1
+\* CoinGrinder: bw = best_selection_weight (starts at max_selection_weight), bo = best_selection_amount, ba = amount of the best
+CGIter(cx, s, i) ==
+  IF s.done THEN s ELSE
+  LET tail == s.next
+      sel1 == Append(s.sel, tail)  amt1 == s.amt + cx.a[tail]  wt1 == s.wt + cx.w[tail]
+      insufficient == amt1 + cx.la[tail] < cx.tt
+      heavier == ~insufficient /\ wt1 > s.bw
+      solution == ~insufficient /\ ~heavier /\ amt1 >= cx.tt
+      hopeless == ~insufficient /\ ~heavier /\ ~solution /\ s.best # <<>>
+                  /\ wt1 + cx.mt[tail] * CeilDiv(cx.tt - amt1, cx.a[tail]) > s.bw
+      minimal == cx.w[tail] <= cx.mt[tail]
+      better == solution /\ (wt1 < s.bw \/ (wt1 = s.bw /\ amt1 < s.bo))
+  IN Finish(cx, FALSE, s, sel1, amt1, wt1, 0, insufficient \/ ((heavier \/ hopeless) /\ minimal), solution \/ ((heavier \/ hopeless) /\ ~minimal),
+            IF better THEN sel1 ELSE s.best, IF better THEN wt1 ELSE s.bw, IF better THEN amt1 ELSE s.bo, IF better THEN amt1 ELSE s.ba)
+\* SelectCoinsBnB: bo = best_waste (starts at MAX_MONEY), bw = weight of the best, ba = its amount
+BnBIter(cx, s, i) ==
+  IF s.done THEN s ELSE
+  LET tail == s.next
+      sel1 == Append(s.sel, tail)  amt1 == s.amt + cx.a[tail]  wt1 == s.wt + cx.w[tail]  ws1 == s.ws + cx.x[tail]
+      insufficient == amt1 + cx.la[tail] < cx.tt
+      tooheavy == ~insufficient /\ wt1 > cx.mw
+      overshot == ~insufficient /\ ~tooheavy /\ amt1 > cx.up
+      wasteful == ~insufficient /\ ~tooheavy /\ ~overshot /\ cx.high /\ ws1 > s.bo
+      solution == ~insufficient /\ ~tooheavy /\ ~overshot /\ ~wasteful /\ amt1 >= cx.tt
+      waste1 == ws1 + amt1 - cx.t
+      better == solution /\ waste1 <= s.bo
+  IN Finish(cx, TRUE, s, sel1, amt1, wt1, ws1, insufficient, tooheavy \/ overshot \/ wasteful \/ solution,
+            IF better THEN sel1 ELSE s.best, IF better THEN wt1 ELSE s.bw, IF better THEN waste1 ELSE s.bo, IF better THEN amt1 ELSE s.ba)
+\* the unbounded run: <<weight, amount>> of the best selection after each attempt (<<0, 0>> = none yet); no attempt at all when the
+\* whole pool cannot reach the amount ("Insufficient funds")
+Run(b, c, t, mw) ==
+  LET cx == TLCEval(Ctx(b, c, t, mw)) IN
+  IF cx.total < cx.tt THEN <<>>
+  ELSE IF c.al = "cg" THEN FoldLeft(LAMBDA s, i : CGIter(cx, s, i), SearchInit(cx, mw, Huge), [i \in 1..Pow2(cx.n) |-> i]).tr
+  ELSE FoldLeft(LAMBDA s, i : BnBIter(cx, s, i), SearchInit(cx, 0, Huge), [i \in 1..Pow2(cx.n) |-> i]).tr
+\* is the sort order (hence the run) determined?  Groups that tie on amount and sort key must be interchangeable for the search:
+\* CoinGrinder looks at amount and weight only; BnB at amount, waste and weight
+DetRun(p, c) ==
+  LET A0 == AmtF(p, c)  W0 == WF(p)  F0 == FeeF(p, c)  L0 == LTF(p) IN
+  c.al = "cg" \/ \A i, j \in Idx(p) : (A0[i] = A0[j] /\ F0[i] - L0[i] = F0[j] - L0[j]) => W0[i] = W0[j]
+
 \* what the harness needs to build the pool: per group, its coins <<value, fee incl. bump, vbytes, bump fee>> and the group
 \* attributes the model assumes <<amount, effective value, fee, long-term fee, weight, value>>
 CoinRow(c, r) == <<c.e + r * c.b + c.x, r * c.b + c.x, c.b, c.x>>
@@ -166,6 +267,8 @@ GroupRows(p, c) == [i \in Idx(p) |-> LET g == Catalogue[p[i]] IN
                       [c |-> [k \in 1..Len(g) |-> CoinRow(g[k], c.r)],
                        a |-> <<GAmt(g, c.r, c.sf), GEff(g), GFee(g, c.r), GLT(g), GW(g), GVal(g, c.r)>>]]
 
+\* the searches as coded are evaluated for this call (configuration switch: the largest table keeps to the relation)
+HasRun == cmb.al \in RunAlgos
 \* ---- enumeration of calls
 Offerable(p, c) == c.al = "knap" \/ \A i \in Idx(p) : AmtF(p, c)[i] > 0      \* "positive_group" for all but the knapsack solver
 Offsets(c) == IF c.al = "bnb" THEN {0, CostOfChange(c)}            \* both ends of the window
@@ -173,9 +276,10 @@ Offsets(c) == IF c.al = "bnb" THEN {0, CostOfChange(c)}            \* both ends 
               ELSE IF c.al = "srd" THEN {0, U + c.cf}              \* SRD's internal reserve
               ELSE {0, ChangeTarget(c)}
 Init == /\ pool \in Pools /\ cmb \in Combos /\ Offerable(pool, cmb)
-        /\ st = <<>> /\ ga = <<>> /\ tgt = 0 /\ maxw = 0 /\ phase = "new" /\ tab = {}
+        /\ st = <<>> /\ ga = <<>> /\ tgt = 0 /\ maxw = 0 /\ phase = "new" /\ tab = {} /\ run = <<>> /\ sb = <<>>
 \* (computed in an action, not in Init: TLC evaluates actions on all workers and caches LET values there)
-Prepare == /\ phase = "new" /\ phase' = "pool" /\ st' = Stats(pool, cmb) /\ ga' = GroupRows(pool, cmb) /\ UNCHANGED <<pool, cmb, tgt, maxw, tab>>
+Prepare == /\ phase = "new" /\ phase' = "pool" /\ st' = Stats(pool, cmb) /\ ga' = GroupRows(pool, cmb)
+           /\ sb' = (IF HasRun THEN CtxBase(pool, cmb) ELSE <<>>) /\ UNCHANGED <<pool, cmb, tgt, maxw, tab, run>>
 \* the (target, weight cap) pairs of a pool: targets around the sum of every subset S (shifted by the algorithm's offsets), caps
 \* around the weight of S (or of every subset), and a cap that never binds
 Calls(sts, c) ==
@@ -189,7 +293,8 @@ MakeRow ==
   /\ \E tm \in (IF WCross THEN Calls(st, cmb) ELSE CallsCoupled(st, cmb)) :
        /\ tgt' = tm[1] /\ maxw' = tm[2] /\ phase' = "row"
        /\ tab' = Table(st, cmb, tm[1], tm[2])
-  /\ UNCHANGED <<pool, cmb, st, ga>>
+       /\ run' = IF HasRun THEN Run(sb, cmb, tm[1], tm[2]) ELSE <<>>
+  /\ UNCHANGED <<pool, cmb, st, ga, sb>>
 Next == Prepare \/ MakeRow
 Spec == Init /\ [][Next]_vars
 
@@ -216,9 +321,24 @@ AmountIsEffective == IsRow /\ ~cmb.sf => \A x \in tab : x[2] = x[3]
 \* a CoinGrinder solution also satisfies SRD's reserve (same change parameters): comparable constraint sets
 CGCoversReserve == IsRow /\ cmb.al = "cg" => \A x \in tab : x[2] >= tgt + U + cmb.cf
 
+\* ---- the searches as coded (any attempt bound): what a completed search returns is optimal per the exhaustive definition
+Searched == IsRow /\ HasRun
+\* the unbounded run ends by itself within 2^n - 1 attempts (every attempt evaluates a different non-empty subset)
+RunEnds == Searched => Len(run) < Pow2(Len(pool))
+\* nothing admitted: the completed search returns nothing; something admitted: CoinGrinder returns a minimum-weight admitted subset
+AsCodedCG == Searched /\ cmb.al = "cg" =>
+  LET fin == IF run = <<>> THEN <<0, 0>> ELSE run[Len(run)] IN
+  IF tab = {} THEN fin = <<0, 0>> ELSE \E x \in tab : x[8] /\ x[5] = fin[1] /\ x[2] = fin[2]
+\* branch-and-bound may miss solutions (it is allowed to fail), but what a completed search returns is admitted and waste-optimal
+AsCodedBnB == Searched /\ cmb.al = "bnb" /\ DetRun(pool, cmb) =>
+  LET fin == IF run = <<>> THEN <<0, 0>> ELSE run[Len(run)] IN
+  fin # <<0, 0>> => \E x \in tab : x[8] /\ x[5] = fin[1] /\ x[2] = fin[2]
+\* the best-so-far only improves, and every intermediate best is admitted (a cut-short search still returns a valid selection)
+AsCodedValid == Searched => \A i \in 1..Len(run) : run[i] # <<0, 0>> => \E x \in tab : x[5] = run[i][1] /\ x[2] = run[i][2]
+
 EmitRow ==
   IsRow => VFRow([al |-> cmb.al, r |-> cmb.r, sf |-> cmb.sf, cf |-> cmb.cf, coc |-> CostOfChange(cmb), mvc |-> MinViable(cmb),
                   ct |-> ChangeTarget(cmb), lt |-> LTRate, t |-> tgt, mw |-> maxw, p |-> pool,
-                  g |-> ga,
+                  g |-> ga, run |-> run, det |-> HasRun /\ DetRun(pool, cmb),
                   fs |-> tab])
 ====
